@@ -27,7 +27,11 @@ def main():
         with open(args.replay) as f:
             data = json.load(f)
         case = data.get('case', data)
-        msg = mod.replay(case)
+        if case.get('kind') == 'wjob':
+            from . import dyn
+            msg = dyn.replay_wjob(mod, case)
+        else:
+            msg = mod.replay(case)
         if msg:
             print(f'REPLAY property={pid} still fails: {msg}')
             return 1
